@@ -59,6 +59,11 @@ impl Chan {
         c.out.push(v);
         v
     }
+    /// A decision in 0..n computed by `f` in generate mode (it may use the PRNG or ignore it) and
+    /// read from the tape in replay mode.
+    pub fn decide(&self, n: u64, f: impl FnOnce(&mut Rng) -> u64) -> u64 {
+        self.draw(n, |r| f(r).min(n.max(1) - 1))
+    }
     /// Uniform in 0..n.
     pub fn below(&self, n: u64) -> u64 {
         self.draw(n, |r| r.below(n))
